@@ -478,7 +478,12 @@ htp_status_t htp_connp_RES_BODY_CHUNKED_LENGTH(htp_connp_t *connp) {
             } else if (connp->out_chunked_length == 0) {
                 // End of data. The decompressors hand out what they still
                 // hold now: the trailer comes after the body.
-                if (connp->out_decompressor != NULL) {
+                // (only when this body is being decoded: a decompressor may be
+                // left over from an earlier response that announced a coding
+                // and had no body)
+                if ((connp->out_decompressor != NULL) &&
+                    (connp->out_tx->response_content_encoding_processing != HTP_COMPRESSION_NONE) &&
+                    (connp->out_tx->response_content_encoding_processing != HTP_COMPRESSION_UNKNOWN)) {
                     htp_status_t rc = htp_tx_res_process_body_data_ex(connp->out_tx, NULL, 0);
                     if (rc != HTP_OK) return rc;
                 }
